@@ -194,7 +194,7 @@ CHECKS = {
                  "a send and removal racing a send are runtime behaviour sampled by the correspondence, not proved.",
     },
     **{pid: {
-        "family": "sched", "level": "proof", "modules": ["Gk.Props." + pid], "components": ["sched"],
+        "family": "sched", "level": "proof", "modules": ["Gk.Props." + pid], "components": ["sched", "schedcron"],
         "runs": (lambda pid: lambda tier: (lambda n: [
             {"args": ["sched", "-n", str(n), "-len", "25", "-slots", "0"] + (["-faults", "1"] if pid == "C20" else [])},
             {"args": ["sched", "-n", str(n), "-len", "25", "-slots", "0", "-faults", "2" if pid == "C20" else "1"], "seed_off": 50},
@@ -209,7 +209,9 @@ CHECKS = {
                 "in a fair fault-free quiescence phase; every call, result, returned state, work start and the final "
                 "dump are replayed on Gk.World, and the monitors run on the implementation's own lines; one run drives "
                 "the cron configuration (Scheduler over VolatileTaskRepo over a real CronStore with EditTask injected "
-                "at call boundaries) with the monitors only - no model is replayed for it",
+                "at call boundaries, also between volatileTaskRepo's Peek and Pop): every call, Peek / Pop answer, "
+                "returned state, work start, the clock and the pending schedule are replayed on Gk.CWorld (occurrence "
+                "ids matched by a checked bijection) and the monitors run on the implementation's own lines",
         "trusted_base": COMMON_TB + ["the dispatcher is simulated (contract of def.Dispatcher; the real one is tied by C08/C09)",
                                      "goroutine scheduling inside Step's select and the event queue is sampled, not proved"],
         "assumptions": ["driver policy: StartTimer once; a step that reported an error is retried before stepping on "
